@@ -1866,6 +1866,13 @@ class unyt_array(np.ndarray):
                 mul, unit = _apply_power_mapping(ufunc, u, inp.size, inp.shape, kwargs)
             else:
                 mul, unit = self._ufunc_registry[ufunc](u)
+                if (
+                    isinstance(kwargs.get("initial"), unyt_array)
+                    and self._ufunc_registry[ufunc] is _preserve_units
+                ):
+                    # the start value is combined with the data: same rule as
+                    # for a second operand (raises if it cannot be converted)
+                    kwargs["initial"] = kwargs["initial"].to_value(u)
             # evaluate the ufunc
             out_arr = func(np.asarray(inp), out=out_func, **kwargs)
             # use type(self) here so we can support user-defined
